@@ -15,6 +15,7 @@ maintenance operations (Clean/Save/Load before the mark) the same is carried by 
 import BRV.Proofs.RepoBasics
 import BRV.Proofs.RepoTrim
 import BRV.Proofs.RepoExample
+import BRV.Props.C01
 
 namespace BRV.Repo
 
@@ -221,5 +222,17 @@ example : (processHeader genesisRepo { id := 1, prev := 0, bits := 0x1d00ffff, t
     (markInvalid (processHeader genesisRepo { id := 1, prev := 0, bits := 0x1d00ffff, time := 2 } true).1 1).2 = none ∧
     (markInvalid (processHeader genesisRepo { id := 1, prev := 0, bits := 0x1d00ffff, time := 2 } true).1 1).1.longest = 0 := by
   decide
+
+/-- **C17 ("the best chain falls back to the heaviest remaining accepted chain") over forest histories from
+    any loaded state.** From the repository Load builds out of any consistent storage image, after ANY history of
+    submissions (with automatic cleans), Cleans and Saves with no reorganisation pending, marks and unmarks:
+    the tracked forest is well linked and the reported tip is a tracked branch of maximal accumulated work
+    among the branches that remain after the marks. -/
+theorem C17_fallback_after_load (r0 : Repo) (depth : Int) (hd : 0 ≤ depth) (g : Hdr) (hst : StoreOK r0.store)
+    (ops : List FOp) :
+    ∃ rl, load r0 depth g = (rl, none) ∧
+      (FHist rl ops → ForestOK (ops.foldl applyF rl) ∧ TipMax (ops.foldl applyF rl)) := by
+  obtain ⟨rl, hl, hok⟩ := load_sound r0 depth hd g hst
+  exact ⟨rl, hl, fun hh => C01_forest_ops ops rl hok.forest ⟨hok.tip, hok.heaviest⟩ hh⟩
 
 end BRV.Repo
